@@ -19,6 +19,10 @@ import (
 	"vsim/core"
 )
 
+// KeepDefaultWarner leaves the runtime's default warner (which writes to
+// os.Stderr as it is when the runtime is created) in place.
+var KeepDefaultWarner bool
+
 // AllFlags is every compliance flag.
 const AllFlags = rt.ComplyCpuSafe | rt.ComplyMemSafe | rt.ComplyTimeSafe | rt.ComplyIoSafe
 
@@ -45,7 +49,9 @@ func NewHost(sched *core.Sched, log *core.Log, opts ...rt.RuntimeOption) *Host {
 	h := &Host{Sched: sched, Log: log}
 	h.R = rt.New(&h.Out, opts...)
 	h.cleanup = lib.LoadAll(h.R)
-	h.R.SetWarner(rt.NewLogWarner(io.Discard, ""))
+	if !KeepDefaultWarner {
+		h.R.SetWarner(rt.NewLogWarner(io.Discard, ""))
+	}
 	h.Def("emit", func(t *rt.Thread, c *rt.GoCont) (rt.Cont, error) {
 		h.Emit(t, "emit", c.Etc())
 		return c.Next(), nil
